@@ -1,3 +1,7 @@
+#[cfg(feature = "verif")]
+#[allow(unused_imports)]
+use qbice_verif_rt::{std};
+
 use std::sync::{
     Arc,
     atomic::{AtomicU64, Ordering},
